@@ -76,6 +76,7 @@ type tableCfg struct {
 	DelayPerM int    `json:"delay_per_mille"`
 	Procs     int    `json:"gomaxprocs"` // 0 = all CPUs; the table's parallel copy splits the buckets by GOMAXPROCS
 	HashMode  int    `json:"hash_mode,omitempty"` // degraded key hashes (hook VerifSetHash), see hashModes
+	Stampede  bool   `json:"stampede,omitempty"`  // the churners start each round together (barrier)
 }
 
 // hashModes degrade the key hash so that few keys give long bucket chains (the bucket index is
@@ -110,7 +111,24 @@ func runTable(cfg tableCfg) (violation string, st map[string]int64, hist any) {
 	setHashMode(cfg.HashMode)
 	defer otter.VerifSetHash(nil)
 	m := otter.VerifNewMap(cfg.InitCap)
-	otter.VerifSetHook(compHook(cfg.Seed, cfg.DelayPerM))
+	hook := compHook(cfg.Seed, cfg.DelayPerM)
+	if cfg.Stampede {
+		// whoever waited for somebody else's resize is held up for a moment before it goes on: the next resize is
+		// then already under way when the waiter leaves
+		waited := siteIndex("map.resize.waited")
+		var ctr atomic.Uint64
+		general := hook
+		hook = func(site int) {
+			if site == waited {
+				if r := core.Mix(cfg.Seed ^ 0x77 ^ ctr.Add(1)); r%2 == 0 {
+					time.Sleep(time.Duration((r>>24)%300+20) * time.Microsecond)
+				}
+				return
+			}
+			general(site)
+		}
+	}
+	otter.VerifSetHook(hook)
 	defer otter.VerifSetHook(nil)
 	base := time.Now()
 	now := func() int64 { return int64(time.Since(base)) }
@@ -133,15 +151,39 @@ func runTable(cfg tableCfg) (violation string, st map[string]int64, hist any) {
 	insCall := make([]atomic.Int64, nck*cfg.Rounds)
 	delRet := make([]atomic.Int64, nck*cfg.Rounds)
 	var wg sync.WaitGroup
+	arrived := make([]atomic.Int64, cfg.Rounds+1)
 	for c := 0; c < cfg.Churners; c++ {
 		wg.Add(1)
 		go func(c int) {
 			defer wg.Done()
 			for round := 0; round < cfg.Rounds && !stop.Load(); round++ {
+				if cfg.Stampede {
+					// everybody starts filling at the same moment
+					arrived[round].Add(1)
+					for arrived[round].Load() < int64(cfg.Churners) && !stop.Load() {
+						runtime.Gosched()
+					}
+				}
 				for i := 0; i < cfg.ChurnKeys; i++ {
 					slot := c*cfg.ChurnKeys + i
 					id := round*nck + slot
 					insCall[id].Store(now())
+					if cfg.Stampede {
+						// some insertions take their time inside the update function (the bucket stays locked): a
+						// resize that starts meanwhile has to wait for exactly this bucket
+						v := id + 1
+						m.Compute(churnBase+slot, func(int, bool) (int, int) {
+							switch h := core.Mix(cfg.Seed ^ uint64(v)); h % 8 {
+							case 0:
+								time.Sleep(time.Duration(h>>20%30+3) * time.Microsecond)
+							case 1:
+								runtime.Gosched()
+							}
+							return v, 1
+						})
+						progress.Add(1)
+						continue
+					}
 					m.Compute(churnBase+slot, set(id+1))
 					progress.Add(1)
 				}
@@ -865,6 +907,18 @@ func RunC15(col *core.Collector, tier, variant string, seed uint64, shard, nshar
 		if r.Chance(2, 5) {
 			cfg.HashMode = 1 + r.Intn(len(hashModes)-1)
 			cfg.ChurnKeys = 20 + r.Intn(400) // chains are walked linearly
+		}
+		if r2 := core.NewRng(core.Derive(seed, core.StrLabel("C15stampede"), core.StrLabel(variant), uint64(i))); r2.Chance(1, 5) {
+			// a stampede: many goroutines fill an empty table with keys of their own at the same moment, so that
+			// several of them decide to grow the table at once (one resizes, the others wait for it) and the next
+			// growth follows while the waiters are still waking up; then they all drain it again
+			cfg.Churners = 8 + r2.Intn(25)
+			cfg.ChurnKeys = 60 + r2.Intn(300)
+			cfg.Rounds = 2 + r2.Intn(2)
+			cfg.InitCap = 0
+			cfg.HashMode = 0
+			cfg.Stampede = true
+			col.Count("stampede_trials", 1)
 		}
 		if cfg.Procs > 0 {
 			runtime.GOMAXPROCS(cfg.Procs)
